@@ -46,6 +46,8 @@ inductive Atom where
   | unchanged | skipAdvance | nullLoop | colSkip
   -- render(): pointer shape, trailing cursor show
   | shapeChanged | wrShape | shapeAssign | cursorAppears | wrShowCursor
+  -- the bodies of the two nulling loops `for i := 1; i < skip+1; i += 1 { … }`
+  | colIBeyond | break_ | endLastIDirty | lastINull
   | none_       -- a `switch` / `default` line (no text)
   | unknown
   deriving DecidableEq, Repr, Inhabited
@@ -54,7 +56,7 @@ def kindOf (k : String) : Kind :=
   if k = "if" then .if_ else if k = "switch" then .switch_ else if k = "case" then .case_
   else if k = "default" then .default_
   else if k = "for" then .for_
-  else if k = "assign" ∨ k = "write" ∨ k = "return" ∨ k = "continue" ∨ k = "call" then .stmt
+  else if k = "assign" ∨ k = "write" ∨ k = "return" ∨ k = "continue" ∨ k = "call" ∨ k = "break" then .stmt
   else .unknown
 
 def atomOf (t : String) : Atom :=
@@ -113,11 +115,14 @@ def atomOf (t : String) : Atom :=
   else if t = "vx.mouseShapeLast=vx.mouseShapeNext" then .shapeAssign
   else if t = "vx.cursorNext.visible&&!vx.cursorLast.visible" then .cursorAppears
   else if t = "vx.tw.WriteString(vx.showCursor())" then .wrShowCursor
+  else if t = "col+i>=len(vx.screenNext.buf[row])" then .colIBeyond
+  else if t = "end:=col+i+vx.advance(vx.screenLast.buf[row][col+i])+1;end>dirty" then .endLastIDirty
+  else if t = "vx.screenLast.buf[row][col+i]=Cell{}" then .lastINull
   else .unknown
 
-/-- `continue` has kind "continue" and no text. -/
+/-- `continue` / `break` have their own kind and no text. -/
 def readLine (l : Line) : Nat × Kind × Atom :=
-  (l.1, kindOf l.2.1, if l.2.1 = "continue" then Atom.continue_ else atomOf l.2.2)
+  (l.1, kindOf l.2.1, if l.2.1 = "continue" then Atom.continue_ else if l.2.1 = "break" then Atom.break_ else atomOf l.2.2)
 
 def prog (sk : List Line) : List (Nat × Kind × Atom) := sk.map readLine
 
@@ -169,6 +174,9 @@ structure Env where
   shapeNext : String := ""       -- vx.mouseShapeNext
   shapeLast : String := ""       -- vx.mouseShapeLast
   cl : CursorState := {}         -- vx.cursorLast
+  lastRow : List Cell := []      -- vx.screenLast.buf[row] (the nulling loops index it)
+  i : Nat := 0                   -- `i`
+  brk : Bool := false            -- `break` hit
   w : Int := 0
   ret : Option Int := none
   cn : CursorState := {}
@@ -202,6 +210,10 @@ def evalG (cw : String → Nat) (caps : Caps) (a : Atom) (e : Env) : Env × Bool
   | .unchanged => (e, decide (e.next = e.last) && !e.refresh && decide (e.col ≥ e.dirty))
   | .shapeChanged => (e, decide (e.shapeLast ≠ e.shapeNext))
   | .cursorAppears => (e, e.cn.visible && !e.cl.visible)
+  | .colIBeyond => (e, decide (e.col + e.i ≥ e.len))
+  | .endLastIDirty =>
+      ({ e with endv := e.col + e.i + advance cw (e.lastRow[e.col + e.i]?.getD {}) + 1 },
+       decide (e.col + e.i + advance cw (e.lastRow[e.col + e.i]?.getD {}) + 1 > e.dirty))
   | .nextWide => (e, decide (e.next.w > 1) && caps.explicitWidth)
   | _ => ({ e with unknown := true }, false)
 
@@ -253,6 +265,8 @@ def evalS (cw : String → Nat) (caps : Caps) (a : Atom) (e : Env) : Env :=
   | .wrShape => { e with out := e.out ++ [Tok.pointer e.shapeNext] }
   | .shapeAssign => { e with shapeLast := e.shapeNext }
   | .wrShowCursor => { e with out := e.out ++ showCursorToks e.cn }
+  | .break_ => { e with brk := true }
+  | .lastINull => { e with lastRow := e.lastRow.set (e.col + e.i) {} }
   | _ => { e with unknown := true }
 
 /-! ### execution -/
@@ -263,7 +277,7 @@ def exec (cw : String → Nat) (caps : Caps) : Nat → List (Nat × Kind × Atom
   | 0, _, e => { e with unknown := true }
   | _, [], e => e
   | f + 1, (d, k, a) :: rest, e =>
-    if e.cont ∨ e.ret.isSome then e else
+    if e.cont ∨ e.ret.isSome ∨ e.brk then e else
     let body := rest.takeWhile (fun l => d < l.1)
     let after := rest.dropWhile (fun l => d < l.1)
     match k with
@@ -272,6 +286,9 @@ def exec (cw : String → Nat) (caps : Caps) : Nat → List (Nat × Kind × Atom
         exec cw caps f after (if r.2 then exec cw caps f body r.1 else r.1)
     | .switch_ => exec cw caps f after (execArms cw caps f body e)
     | .stmt => exec cw caps f after (evalS cw caps a e)
+    | .for_ =>
+        if a = Atom.nullLoop then exec cw caps f after (loopI cw caps f body { e with i := 1 })
+        else { e with unknown := true }
     | _ => { e with unknown := true }
 /-- The arms of a `switch`: the first `case` whose guard holds, else `default`. -/
 def execArms (cw : String → Nat) (caps : Caps) : Nat → List (Nat × Kind × Atom) → Env → Env
@@ -286,11 +303,23 @@ def execArms (cw : String → Nat) (caps : Caps) : Nat → List (Nat × Kind × 
         if r.2 then exec cw caps f body r.1 else execArms cw caps f after r.1
     | .default_ => exec cw caps f body e
     | _ => { e with unknown := true }
+/-- `for i := 1; i < skip+1; i += 1 { body }` after the init statement. -/
+def loopI (cw : String → Nat) (caps : Caps) : Nat → List (Nat × Kind × Atom) → Env → Env
+  | 0, _, e => { e with unknown := true }
+  | f + 1, body, e =>
+    if e.i < e.skipv + 1 then
+      let e1 := exec cw caps f body e
+      if e1.brk then { e1 with brk := false } else loopI cw caps f body { e1 with i := e1.i + 1 }
+    else e
 end
 
 /-- Run a block with the five colour / attribute / underline blocks as single statements. -/
 def runP (cw : String → Nat) (caps : Caps) (sk : List Line) (e : Env) : Env :=
   exec cw caps (sk.length + 1) (prune (prog sk)) e
+
+/-- Run a block with explicit fuel (loops). -/
+def runF (cw : String → Nat) (caps : Caps) (fuel : Nat) (sk : List Line) (e : Env) : Env :=
+  exec cw caps fuel (prog sk) e
 
 /-- Run a block of a skeleton (fuel = number of lines + 1: every call consumes a line). -/
 def run (cw : String → Nat) (caps : Caps) (sk : List Line) (e : Env) : Env :=
